@@ -70,8 +70,14 @@ func verifyCall(rt fsRoute, doc string, root *model.Node, opts []gtree.Option) O
 // not given) instead of omitting the option.
 const explicitEmptyTarget = "\x00explicit-empty"
 
+var fsOptsCalls int
+
 func fsOpts(target string, exts []string, hasExt, dry, massive, strict bool) []gtree.Option {
 	var o []gtree.Option
+	fsOptsCalls++
+	if fsOptsCalls%2 == 0 {
+		o = append(o, nil) // nil options are skipped by the library; they must not hide later options
+	}
 	if target == explicitEmptyTarget {
 		o = append(o, gtree.WithTargetDir(""))
 	} else if target != "" {
@@ -79,6 +85,9 @@ func fsOpts(target string, exts []string, hasExt, dry, massive, strict bool) []g
 	}
 	if hasExt {
 		o = append(o, gtree.WithFileExtensions(sharedExt(exts)))
+	}
+	if fsOptsCalls%3 == 0 {
+		o = append(o, nil)
 	}
 	if dry {
 		o = append(o, gtree.WithDryRun())
